@@ -25,7 +25,6 @@ CLAIMED = {
 # id -> reason (properties not claimed). PENDING entries are planned in DESIGN.md but the
 # rule set is not yet silent-and-sound on the unchanged tree, so they are not claimed.
 NOT_APPLICABLE = {
- "C15": "Filter encode/decode identity over all byte strings and parameter sets is value behaviour of compression codecs.",
  "C17": "Agreement with the PNG/TIFF predictor specifications is numeric behaviour.",
  "C19": "Write/read graph isomorphism quantifies over document contents.",
  "C21": "'Every output validates' quantifies over operation parameters and document contents; validator acceptance is runtime behaviour.",
